@@ -64,7 +64,9 @@ class State:
         if z3.is_false(f):
             raise PathEnd("assume false")
         self.pc.append(f)
-        self.solver.add(f)
+        for c in conjuncts(f):
+            if not has_quantifier(c):
+                self.solver.add(c)
 
     def sat(self, extra=None):
         self.n_solver_calls += 1
@@ -135,6 +137,32 @@ class State:
 
     def event(self, *ev):
         self.trace.append(tuple(ev))
+
+
+def conjuncts(f):
+    if z3.is_and(f):
+        for c in f.children():
+            yield from conjuncts(c)
+    else:
+        yield f
+
+
+
+def has_quantifier(f):
+    """quantified facts are kept out of the (light) branch-feasibility solver: fewer constraints
+    only make more paths look feasible, which is sound; VCs always carry the full path condition."""
+    seen = set()
+    stack = [f]
+    while stack:
+        e = stack.pop()
+        i = e.get_id()
+        if i in seen:
+            continue
+        seen.add(i)
+        if z3.is_quantifier(e):
+            return True
+        stack.extend(e.children())
+    return False
 
 
 def sort_of(ty):
